@@ -6,7 +6,7 @@ CLAIM = ("dot, length, distance, cross, normalize, faceforward, reflect, refract
          "l1Norm, l2Norm, lMaxNorm, lxNorm, proj, perp, orthonormalize, angle, orientedAngle, closestPointOnLine, triangleNormal, cross(vec2), mixedProduct are executed symbolically from "
          "their clang IR. In rounding-erased (real) semantics the solver shows the Euclidean identities of the property for every input vector (sum of products, non-negative root of the "
          "squared norm, orthogonality / anti-commutativity / determinant formula of cross, unit positive multiple, reflection formula with involution and length preservation for unit N, "
-         "Snell's law for unit I, N, Gram-Schmidt characterisation of orthonormalize(x, y) and orthonormalize(mat3) (orthonormal columns spanning the same flag with the same orientation, for "
+         "Snell's law for unit I, N and the GLSL formula eta I - (eta N.I + sqrt k) N for arbitrary I, N with k >= 0, Gram-Schmidt characterisation of orthonormalize(x, y) and orthonormalize(mat3) (orthonormal columns spanning the same flag with the same orientation, for "
          "every matrix with det != 0), clamped-projection definition of closestPointOnLine, cos(angle) = dot for unit vectors). The harder identities (orthonormalize, triangleNormal, |refract| = 1, "
          "Cauchy-Schwarz for angle) are proved as chains of small lemmas over one symbolic execution, each step a separate solver query, some after generalising sub-terms to fresh reals. In bit-precise "
          "IEEE semantics it shows that refract returns the all-zero bit pattern whenever k = 1 - eta*eta*(1 - dot(N,I)^2) < 0 and the GLSL formula otherwise (k = 0 included), that faceforward returns N "
@@ -321,6 +321,25 @@ def job_core_real(t, L):
                             'into-surface': dict(use=['rN', 'fN'], hyps=ax + C.pre[1:2], gen=[rN, fN, A, NN, d])})
             C.twins(lambda i, o: [('m', RGoal('ge', rdot(R(o[0]), i[1]), 0))])
         elif C.res is not None: C.side(); C.goals(snell)
+        # the GLSL formula for arbitrary (non-unit) I, N: out = eta I - (eta d + s) N with s >= 0, s^2 = k, stated without the root: (out - eta I + eta d N)_j = -s N_j
+        def glsl(i, o):
+            I, N, eta = i[0], i[1], i[2][0]; d = rdot(N, I); r = R(o[0]); g = []
+            for j in range(L):
+                e_ = r[j] - eta * I[j] + eta * d * N[j]
+                g += [('formula%d' % j, REq(e_ * e_, kk(i) * (N[j] * N[j]))), ('root-sign%d' % j, RGoal('le', e_ * N[j], 0))]
+            return g
+        C = Chain(S, 'refract' + s, name='c12.refract%s.general' % s, pre=lambda i: [kk(i) >= 0], timeout=tm, bounds='all real I, N, eta with k >= 0', direct_solver='qfnra', witness_at=at_e0(0, 1, r2=1))
+        if C.res is not None and len(C.sq) == 1:
+            I, N, eta = C.i[0], C.i[1], C.i[2][0]; r = R(C.o[0]); A, sv, ax = C.sqrt_ax(0); d = rdot(N, I); K = kk(C.i); ed = eta * d
+            C.lemma('k', A == K)
+            for j in range(L): C.lemma('out%d' % j, r[j] == eta * I[j] - (ed + sv) * N[j], hyps=C.pre)
+            C.side(lambda kind, dsc, cond, k: dict(use=['k'], hyps=C.pre, gen=[A, K]))
+            rc = {}
+            for j in range(L):
+                rc['formula%d' % j] = dict(use=['k', 'out%d' % j], hyps=ax, gen=[r[j]] + opaque(A, K) + [K, ed])
+                rc['root-sign%d' % j] = dict(use=['out%d' % j], hyps=ax, gen=[r[j], A, ed])
+            C.goals(glsl, rc)
+        elif C.res is not None: C.side(); C.goals(glsl)
         # (k < 0 cannot be examined in real mode: the model's sqrt axiom y*y == k has no real solution; the bit-precise jobs fp_* decide that half)
         # gtx norm
         rcheck(S, 'length2' + s, lambda i, o: [('sum-of-squares', REq(o[0][0].r, rdot(i[0], i[0])))], mode='real', timeout=tm, bounds='all real vectors')
